@@ -1,2 +1,329 @@
-/- Oracle for C11 (stub: replaced when the property's model is built). -/
-def main : IO Unit := pure ()
+/-
+  Oracle for C11.  Reads the merged stream of the harness (see harness/cmd/c11/dump.go):
+
+    R <static names>            registry of a fresh process
+    F lq=<idx|-> flopoco=<0|1>  family configuration of the LOADING process
+    CASE <i> <bm|mach> <tag>
+    L.B / L.D k …               live machine (absent for hand-made files)
+    J.B / J.D k …               what the implementation's Jsoner produced (or the hand-made file)
+    X.B / X.D k …               what the implementation's Dejsoner produced in the loading process
+    END
+
+  and prints per case
+
+    CASE <i>
+    MJ.B / MJ.D k …   BMV.Json.jsoner(BM) applied to L                       (compared with J)
+    MX.B / MX.D k …   BMV.Json.dejsoner(BM) applied to J, registry threaded    (compared with X)
+                      from case to case exactly as the loading process does
+    P resolvable=<0|1> sovalid=<0|1> loadeq=<0|1|-> nilops=<n> nilsos=<n> counts=<0|1>
+                      the property evaluated by the model's definitions on the IMPLEMENTATION's
+                      dumps: loadeq = (X == clearTransient(L) lifted)
+-/
+import BMV.Json
+import BMV.Lines
+open BMV.Json BMV.Lines
+
+/-! ### decoding -/
+
+def hexVal (c : Char) : Nat :=
+  if c.isDigit then c.toNat - '0'.toNat
+  else if 'A' ≤ c && c ≤ 'F' then c.toNat - 'A'.toNat + 10
+  else if 'a' ≤ c && c ≤ 'f' then c.toNat - 'a'.toNat + 10 else 0
+
+/-- percent-decoding (single bytes; the interpreted strings are ASCII) -/
+def decodeL : List Char → List Char
+  | '%' :: a :: b :: rest => Char.ofNat (hexVal a * 16 + hexVal b) :: decodeL rest
+  | c :: rest => c :: decodeL rest
+  | [] => []
+
+def encChar (c : Char) : List Char :=
+  if c.isAlphanum || c = '_' || c = ':' || c = '.' || c = '+' || c = '-' || c = '/' then [c]
+  else
+    let n := c.toNat
+    let h (k : Nat) : Char := if k < 10 then Char.ofNat (48 + k) else Char.ofNat (55 + k)
+    ['%', h (n / 16), h (n % 16)]
+
+def encodeL (cs : List Char) : String := String.ofList (cs.flatMap encChar)
+
+def int! (s : String) : Int := s.toInt?.getD 0
+
+/-- `<n>:<items>` — split on the first colon only -/
+def countList (s : String) (sep : String) : List String :=
+  match s.splitOn ":" with
+  | n :: rest =>
+    if nat! n = 0 then [] else (":".intercalate rest).splitOn sep
+  | [] => []
+
+def fmtList (items : List String) (sep : String) : String :=
+  s!"{items.length}:{sep.intercalate items}"
+
+def field (fs : List String) (k : String) : String := (kv fs k).getD ""
+
+/-! ### opcodes -/
+
+def famOfKind : String → Option Fam
+  | "FloPoCo" => some .flopoco | "LinearQuantizer" => some .linq | "Rsets" => some .rsets
+  | "Call" => some .call | "DynOpStack" => some .stack | "FixedPoint" => some .fixedPoint
+  | "FXP" => some .fxp | _ => none
+
+def kindOfFam : Option Fam → String
+  | none => "static" | some .flopoco => "FloPoCo" | some .linq => "LinearQuantizer"
+  | some .rsets => "Rsets" | some .call => "Call" | some .stack => "DynOpStack"
+  | some .fixedPoint => "FixedPoint" | some .fxp => "FXP"
+
+def parseOp (s : String) : Option Opcode :=
+  if s = "-" then none
+  else match s.splitOn "/" with
+    | [n, k] => some ⟨n, famOfKind k, []⟩
+    | _ => some ⟨s, none, []⟩
+
+def fmtOp : Option Opcode → String
+  | none => "-"
+  | some op => s!"{op.name}/{kindOfFam op.fam}"
+
+/-! ### shared objects -/
+
+def parseBox (s : String) : Box :=
+  match (s.splitOn ".").map int! with
+  | [a, b, c, d, e] => ⟨a, b, c, d, e⟩
+  | _ => ⟨0, 0, 0, 0, 0⟩
+
+def parseSO (s : String) : Option SO :=
+  if s = "-" then none else
+  let parts := s.splitOn "/"
+  let arg (k : String) : Int := int! ((kv parts k).getD "0")
+  match parts.head? with
+  | some "sharedmem" => some (.sharedmem (arg "Depth"))
+  | some "channel" => some .channel
+  | some "barrier" => some (.barrier (arg "Timeout"))
+  | some "lfsr8" => some (.lfsr8 (Fin.ofNat 256 (arg "Seed").toNat))
+  | some "vtextmem" =>
+    let b := (kv parts "Boxes").getD ""
+    some (.vtextmem (if b = "" then [] else (b.splitOn "+").map parseBox))
+  | some "queue" => some (.queue (arg "Depth"))
+  | some "stack" => some (.stack (arg "Depth"))
+  | some "uart" => some (.uart (arg "BaudRate") (arg "Depth"))
+  | some "kbd" => some (.kbd (arg "Depth"))
+  | _ => none
+
+def fmtSO : Option SO → String
+  | none => "-"
+  | some (.sharedmem d) => s!"sharedmem/Depth={d}"
+  | some .channel => "channel"
+  | some (.barrier t) => s!"barrier/Timeout={t}"
+  | some (.lfsr8 s) => s!"lfsr8/Seed={s.val}"
+  | some (.vtextmem bs) =>
+    let b := "+".intercalate (bs.map fun x => s!"{x.cp}.{x.left}.{x.top}.{x.width}.{x.height}")
+    s!"vtextmem/Boxes={b}"
+  | some (.queue d) => s!"queue/Depth={d}"
+  | some (.stack d) => s!"stack/Depth={d}"
+  | some (.uart b d) => s!"uart/Depth={d}/BaudRate={b}"
+  | some (.kbd d) => s!"kbd/Depth={d}"
+
+/-! ### machines -/
+
+def parseLiveD (fs : List String) : LoadedMachine :=
+  { modes := countList (field fs "modes") ",", cpID := nat! (field fs "cpid"),
+    rsize := nat! (field fs "rsize"), r := nat! (field fs "r"), n := nat! (field fs "n"),
+    m := nat! (field fs "m"), ops := (countList (field fs "ops") ",").map parseOp,
+    threaded := int! (field fs "thr"), sharedHDLOps := field fs "hdl", o := nat! (field fs "o"),
+    l := nat! (field fs "l"), sharedConstraints := field fs "sc", tag := field fs "tag",
+    wordSize := nat! (field fs "ws"), slocs := countList (field fs "slocs") ",",
+    vars := countList (field fs "vars") "," }
+
+def fmtLiveD (p : String) (k : Nat) (m : LoadedMachine) : String :=
+  s!"{p}.D {k} modes={fmtList m.modes ","} cpid={m.cpID} rsize={m.rsize} r={m.r} n={m.n} m={m.m} " ++
+  s!"ops={fmtList (m.ops.map fmtOp) ","} thr={m.threaded} hdl={m.sharedHDLOps} o={m.o} l={m.l} " ++
+  s!"sc={m.sharedConstraints} tag={m.tag} ws={m.wordSize} slocs={fmtList m.slocs ","} vars={fmtList m.vars ","}"
+
+def parseJsonD (fs : List String) : MachineJson :=
+  { modes := countList (field fs "modes") ",", rsize := nat! (field fs "rsize"),
+    wordSize := nat! (field fs "ws"), r := nat! (field fs "r"), n := nat! (field fs "n"),
+    m := nat! (field fs "m"), l := nat! (field fs "l"), o := nat! (field fs "o"),
+    sharedConstraints := field fs "sc", op := countList (field fs "op") ",",
+    slocs := countList (field fs "slocs") ",", vars := countList (field fs "vars") ",",
+    threaded := int! (field fs "thr") }
+
+def fmtJsonD (p : String) (k : Nat) (j : MachineJson) : String :=
+  s!"{p}.D {k} modes={fmtList j.modes ","} rsize={j.rsize} ws={j.wordSize} r={j.r} n={j.n} m={j.m} " ++
+  s!"l={j.l} o={j.o} sc={j.sharedConstraints} op={fmtList j.op ","} slocs={fmtList j.slocs ","} " ++
+  s!"vars={fmtList j.vars ","} thr={j.threaded}"
+
+def parseBond (s : String) : Bond :=
+  match s.splitOn "." with
+  | [a, b, c] => ⟨nat! a, int! b, int! c⟩
+  | _ => ⟨99, 0, 0⟩
+
+def fmtBond (b : Bond) : String := s!"{b.mapTo}.{b.resId}.{b.extId}"
+
+def parseSlinks (s : String) : List (List Int) :=
+  (countList s "|").map fun x => if x = "" then [] else (x.splitOn ".").map int!
+
+def fmtSlinks (l : List (List Int)) : String :=
+  fmtList (l.map fun x => ".".intercalate (x.map toString)) "|"
+
+def fmtInts (l : List Int) : String := fmtList (l.map toString) ","
+
+structure BHead (β : Type) where
+  rsize : Nat
+  processors : List Int
+  inputs : Int
+  outputs : Int
+  iin : List Bond
+  iout : List Bond
+  links : List Int
+  sos : List β
+  slinks : List (List Int)
+
+def parseHead {β : Type} (fs : List String) (pso : String → β) : BHead β :=
+  { rsize := nat! (field fs "rsize"), processors := (countList (field fs "procs") ",").map int!,
+    inputs := int! (field fs "inputs"), outputs := int! (field fs "outputs"),
+    iin := (countList (field fs "iin") ";").map parseBond,
+    iout := (countList (field fs "iout") ";").map parseBond,
+    links := (countList (field fs "links") ",").map int!,
+    sos := (countList (field fs "sos") ";").map pso, slinks := parseSlinks (field fs "slinks") }
+
+def fmtHead (p : String) (ndom : Nat) (rsize : Nat) (procs : List Int) (inputs outputs : Int)
+    (iin iout : List Bond) (links : List Int) (sos : List String) (sl : List (List Int)) : String :=
+  s!"{p}.B rsize={rsize} ndom={ndom} procs={fmtInts procs} inputs={inputs} outputs={outputs} " ++
+  s!"iin={fmtList (iin.map fmtBond) ";"} iout={fmtList (iout.map fmtBond) ";"} links={fmtInts links} " ++
+  s!"sos={fmtList sos ";"} slinks={fmtSlinks sl}"
+
+/-! ### per-case state -/
+
+structure Case where
+  id : String := ""
+  kind : String := ""
+  lB : Option (BHead (Option SO)) := none
+  lD : List LoadedMachine := []
+  jB : Option (BHead (List Char)) := none
+  jD : List MachineJson := []
+  xB : Option (BHead (Option SO)) := none
+  xD : List LoadedMachine := []
+
+structure St where
+  statics : List String := []
+  cfg : FamConfig := { lqRanges := none, flopoco := false }
+  reg : Registry := { ops := [], fams := [] }
+  reg0 : Registry := { ops := [], fams := [] }
+  cur : Option Case := none
+
+def b2s (b : Bool) : String := if b then "1" else "0"
+
+def mkBM {α β : Type} (h : BHead β) (ds : List (MachineOf α)) : BMOf α β :=
+  { rsize := h.rsize, domains := ds, processors := h.processors, inputs := h.inputs,
+    outputs := h.outputs, iin := h.iin, iout := h.iout, links := h.links, sos := h.sos,
+    slinks := h.slinks }
+
+def resolvableM (reg0 : Registry) (m : Machine) : Bool := m.ops.all (resolvableOpB reg0)
+
+/-- flush one case: model outputs and the property verdicts -/
+def finish (s : St) (c : Case) : St × List String :=
+  let out0 := [s!"CASE {c.id}"]
+  -- model Jsoner on the live dump
+  let liveChecked : Option (List Machine) := allSome (c.lD.map MachineOf.check)
+  let mj : List String :=
+    match liveChecked with
+    | none => if c.lD.isEmpty then [] else ["MJ nil-opcode-in-live-machine"]
+    | some ds =>
+      match c.lB with
+      | some h =>
+        match allSome h.sos with
+        | some sos =>
+          let j := jsonerBM (mkBM { h with sos := sos } ds)
+          fmtHead "MJ" j.domains.length j.rsize j.processors j.inputs j.outputs j.iin j.iout j.links
+              (j.sos.map encodeL) j.slinks ::
+            (j.domains.zipIdx.map fun (d, k) => fmtJsonD "MJ" k d)
+        | none => ["MJ nil-so-in-live-machine"]
+      | none => ds.zipIdx.map fun (d, k) => fmtJsonD "MJ" k (jsoner d)
+  -- model Dejsoner on the implementation's JSON dump, registry threaded
+  let (reg', mx, xModel) : Registry × List String × Option (LoadedBM ⊕ List LoadedMachine) :=
+    match c.jB with
+    | some h =>
+      let j : BMJson := { rsize := h.rsize, domains := c.jD, processors := h.processors,
+                          inputs := h.inputs, outputs := h.outputs, iin := h.iin, iout := h.iout,
+                          links := h.links, sos := h.sos, slinks := h.slinks }
+      let r := dejsonerBM s.reg j
+      let b := r.2
+      (r.1, fmtHead "MX" b.domains.length b.rsize b.processors b.inputs b.outputs b.iin b.iout b.links
+              (b.sos.map fmtSO) b.slinks ::
+            (b.domains.zipIdx.map fun (d, k) => fmtLiveD "MX" k d), some (.inl b))
+    | none =>
+      let r := dejsonDomains s.reg c.jD
+      (r.1, r.2.zipIdx.map fun (d, k) => fmtLiveD "MX" k d, some (.inr r.2))
+  -- the property on the implementation's dumps
+  let resolvable : Bool :=
+    match liveChecked with
+    | some ds => ds.all (resolvableM s.reg0)
+    | none => false
+  let sovalid : Bool :=
+    match c.lB with
+    | some h => h.sos.all fun o => match o with | some so => decide so.Valid | none => false
+    | none => true
+  let loadeq : String :=
+    if c.lD.isEmpty then "-" else
+    let dEq := c.xD == c.lD.map (·.clearTransient)
+    match c.lB, c.xB with
+    | some l, some x =>
+      b2s (dEq && x.rsize == l.rsize && x.processors == l.processors && x.inputs == l.inputs &&
+        x.outputs == l.outputs && x.iin == l.iin && x.iout == l.iout && x.links == l.links &&
+        x.sos == l.sos && x.slinks == l.slinks)
+    | none, none => b2s dEq
+    | _, _ => "0"
+  let nilops := (c.xD.map fun d => (d.ops.filter Option.isNone).length).sum
+  let nilsos := match c.xB with | some x => (x.sos.filter Option.isNone).length | none => 0
+  let counts : Bool :=
+    c.xD.length == c.jD.length &&
+    (c.xD.map (·.ops.length)) == (c.jD.map (·.op.length)) &&
+    (match c.jB, c.xB with
+     | some j, some x => x.sos.length == j.sos.length && x.links == j.links && x.iin == j.iin &&
+         x.iout == j.iout && x.slinks == j.slinks && x.processors == j.processors
+     | none, none => true
+     | _, _ => false)
+  let _ := xModel
+  let p := s!"P resolvable={b2s resolvable} sovalid={b2s sovalid} loadeq={loadeq} nilops={nilops} nilsos={nilsos} counts={b2s counts}"
+  ({ s with reg := reg', cur := none }, out0 ++ mj ++ mx ++ [p])
+
+def flush (s : St) : St × List String :=
+  match s.cur with
+  | some c => finish s c
+  | none => (s, [])
+
+def decodeStr (s : String) : List Char := decodeL s.toList
+
+def step (s : St) (line : String) : St × List String :=
+  let fs := fields line
+  match fs with
+  | "R" :: rest =>
+    let st := commaList (rest.headD "")
+    ({ s with statics := st }, [])
+  | "F" :: rest =>
+    let lq := field rest "lq"
+    let cfg : FamConfig :=
+      { lqRanges := if lq = "-" || lq = "" then none else some ((lq.splitOn ",").map nat!),
+        flopoco := field rest "flopoco" = "1" }
+    let reg := stdRegistry cfg s.statics
+    ({ s with cfg := cfg, reg := reg, reg0 := reg }, [])
+  | "CASE" :: id :: kind :: _ =>
+    let (s', outs) := flush s
+    ({ s' with cur := some { id := id, kind := kind } }, outs)
+  | "END" :: _ =>
+    let (s', outs) := flush s
+    (s', outs ++ ["END"])
+  | tag :: rest =>
+    match s.cur with
+    | none => (s, [])
+    | some c =>
+      let c' : Case :=
+        if tag = "L.B" then { c with lB := some (parseHead rest parseSO) }
+        else if tag = "X.B" then { c with xB := some (parseHead rest parseSO) }
+        else if tag = "J.B" then { c with jB := some (parseHead rest decodeStr) }
+        else if tag = "L.D" then { c with lD := c.lD ++ [parseLiveD rest] }
+        else if tag = "X.D" then { c with xD := c.xD ++ [parseLiveD rest] }
+        else if tag = "J.D" then { c with jD := c.jD ++ [parseJsonD rest] }
+        else c
+      ({ s with cur := some c' }, [])
+  | [] => (s, [])
+
+def main : IO Unit := do
+  let _ ← foldStdin ({} : St) step
